@@ -276,6 +276,7 @@ class World:
                     f"pulls_iter1={p1} pulls_iter2={p2}"
                 )
             case ["sem", n]:
+                self.pool[n]
                 return "ok model-only"
             case ["show", n]:
                 return "ok " + self.show(self.pool[n])
@@ -398,7 +399,7 @@ class World:
                 res = proc.process(t)
                 line = self.report(n, "same" if res is t else "new", res)
                 inp = proto.show_rel(t, self.ser, self.engine_names)
-                return line + " || input=" + inp + " || hooks=" + " ".join(proc.log)
+                return line + " || input=" + inp + " || hooks=" + " ".join(proc.log) + " det=?"
             case ["sqlexec", n]:
                 r = self.pool[n]
                 return self.sqlw.run(self, r)
@@ -412,12 +413,38 @@ class World:
 
     # ------------------------------------------------------------------ helpers for executors
     def rows_of(self, r) -> list[dict]:
-        """Rows of a relation, evaluated by the real engines (processor for multi-engine trees)."""
-        proc = HarnessProcessor(self, quiet=True)
-        processed = proc.process(r)
-        if isinstance(processed.engine, iteration.Engine):
-            return list(processed.engine.execute(processed))
-        return self.sqlw.fetch(processed.engine, processed)
+        """Rows of a relation, evaluated by the real engines (processor for multi-engine trees).
+        Payloads that evaluation caches on marker relations are removed again afterwards, so that
+        asking for the rows (truthful executor, attach) is not itself an observable operation."""
+        markers = []
+
+        def walk(x):
+            from lsst.daf.relation import BinaryOperationRelation, MarkerRelation
+
+            if isinstance(x, MarkerRelation):
+                markers.append((x, x.payload))
+                if isinstance(x, Select):
+                    walk(x.skip_to)
+                walk(x.target)
+            elif isinstance(x, UnaryOperationRelation):
+                walk(x.target)
+            elif isinstance(x, BinaryOperationRelation):
+                walk(x.lhs)
+                walk(x.rhs)
+
+        walk(r)
+        counters = dict(self.counters)
+        try:
+            proc = HarnessProcessor(self, quiet=True)
+            processed = proc.process(r)
+            if isinstance(processed.engine, iteration.Engine):
+                return [dict(x) for x in processed.engine.execute(processed)]
+            return self.sqlw.fetch(processed.engine, processed)
+        finally:
+            for node, old in markers:
+                object.__setattr__(node, "payload", old)
+            self.counters.clear()
+            self.counters.update(counters)
 
     def truthful_executor(self, r) -> bool:
         return len(self.rows_of(r)) > 0
